@@ -53,7 +53,7 @@ def features(case, s, users):
             if n == "":
                 feats.add("empty-name")
             for b in prev["bonds"]:
-                key = b["dapp"] + (users[b["u"]] if b["u"] >= 0 else "?")
+                key = b["dapp"] + (b.get("user") or (users[b["u"]] if b["u"] >= 0 else "?"))
                 if key.startswith(n):
                     if b["dapp"] != n and n != "":
                         feats.add("prefix-name")
